@@ -32,7 +32,8 @@ constexpr auto ceil_resid(T const x, T const xWhole) noexcept -> int
 template <typename T>
 constexpr auto ceil_int(T const x, T const xWhole) noexcept -> T
 {
-    return (xWhole + static_cast<T>(ceil_resid(x, xWhole)));
+    // -1 < x < 0 gives -0: a zero result keeps the sign of x (xWhole is +0 here)
+    return ((x < T(0) && xWhole == T(0)) ? -xWhole : xWhole + static_cast<T>(ceil_resid(x, xWhole)));
 }
 
 template <typename T>
